@@ -30,19 +30,19 @@ fn zl<F: ark_ff::PrimeField>(v: &[F]) -> String {
 pub fn gen_and_run<G: AffineRepr>(curve: &str, ci: u64, modulus: &str, seed: u64, tier: &str) -> Vec<BatchOut> {
     type F<G> = <G as AffineRepr>::ScalarField;
     let mut rng = ChaChaRng::seed_from_u64(seed ^ (ci << 30) ^ 0xba7c);
-    let count = if tier == "thorough" { 60 } else { 14 };
+    let count = if tier == "thorough" { 64 } else { 16 };
     let cap = 8usize;
     let pc = PedersenGens::<G>::default();
     let bp = BulletproofGens::<G>::new(cap, 1);
     let mut outs = vec![];
     for b in 0..count {
-        let kind = b % 7; // 0 honest mix, 1 one invalid, 2 +d/-d pair, 3 empty, 4 single, 5 pair + honest around, 6 shape error inside
-        let k = match kind { 3 => 0, 4 => 1, 2 => 2, _ => rng.gen_range(2..5) };
+        let kind = b % 8; // 7 = the same proof verified against two statements whose constants deviate by +d / -d; 0 honest mix, 1 one invalid, 2 +d/-d pair, 3 empty, 4 single, 5 pair + honest around, 6 shape error inside
+        let k = match kind { 3 => 0, 4 => 1, 2 | 7 => 2, _ => rng.gen_range(2..5) };
         let mut cases: Vec<R1csCase<G>> = vec![];
         let bad_pos = if k > 0 { rng.gen_range(0..k) } else { 0 };
         let mut i = 0;
         while i < k {
-            let sh = Shape { commits: rng.gen_range(0..3), ops1: rng.gen_range(0..4), closures: if rng.gen_range(0..3) == 0 { 1 } else { 0 }, ops2: rng.gen_range(1..4), allow_missing: false };
+            let sh = Shape { commits: if kind == 7 { 1 + rng.gen_range(0..2) } else { rng.gen_range(0..3) }, ops1: rng.gen_range(0..4), closures: if rng.gen_range(0..3) == 0 { 1 } else { 0 }, ops2: rng.gen_range(1..4), allow_missing: false };
             let g = gen_program::<F<G>>(&mut rng, &sh);
             let mut c = R1csCase::plain(format!("b_{}_{}_{}", ci, b, i), g.prog.clone(), cap, cap, rng.gen());
             c.label = BATCH_LABELS[i];
@@ -59,6 +59,26 @@ pub fn gen_and_run<G: AffineRepr>(curve: &str, ci: u64, modulus: &str, seed: u64
                 c2.muts = vec![Mutation::ScalarAdd(3, -d)];
                 cases.push(c);
                 cases.push(c2);
+                i += 2;
+                continue;
+            }
+            if kind == 7 && i == 0 {
+                // statement deviation pair: constraint c1*V0 - c1*v0 = 0 proved; verified with the constant off by +d and by -d
+                let v0 = g.prog.iter().find_map(|o| if let COp::Commit(v, _) = o { Some(*v) } else { None }).unwrap();
+                let c1 = F::<G>::rand(&mut rng);
+                let mut prog = g.prog.clone();
+                prog.push(COp::AllocMul(Some((F::<G>::rand(&mut rng), F::<G>::rand(&mut rng)))));
+                let mk = |off: F<G>| COp::Constrain(vec![(V::Committed(0), Sx::C(c1)), (V::One, Sx::C(-(c1 * v0) + off))]);
+                let mut pp = prog.clone(); pp.push(mk(F::<G>::from(0u64)));
+                let mut va = prog.clone(); va.push(mk(d));
+                let mut vb = prog.clone(); vb.push(mk(-d));
+                let mut ca = R1csCase::plain(format!("b_{}_{}_{}", ci, b, i), pp.clone(), cap, cap, c.ext_seed);
+                let mut cb = R1csCase::plain(format!("b_{}_{}_{}", ci, b, i + 1), pp, cap, cap, c.ext_seed);
+                for (cc, vp) in [(&mut ca, va), (&mut cb, vb)] {
+                    cc.label = c.label; cc.vlabel = c.vlabel; cc.tag = c.tag.clone(); cc.vprog = Some(vp);
+                }
+                cases.push(ca);
+                cases.push(cb);
                 i += 2;
                 continue;
             }
@@ -95,7 +115,7 @@ pub fn gen_and_run<G: AffineRepr>(curve: &str, ci: u64, modulus: &str, seed: u64
                 let mut ci2 = 0;
                 let l1: EvLog = Default::default();
                 let l2: EvLog = Default::default();
-                for op in &c.prog {
+                for op in c.vprog.as_ref().unwrap_or(&c.prog) {
                     match op {
                         COp::Commit(..) => {
                             let cm = o.commitments.get(ci2).copied().unwrap_or_else(G::zero);
